@@ -40,6 +40,7 @@ type Result struct {
 	KnownID    string           `json:"known_id,omitempty"`
 	Stats      map[string]int64 `json:"stats,omitempty"`
 	Sigs       []string         `json:"sigs,omitempty"` // additional distinct things observed
+	Maxes      map[string]int64 `json:"maxes,omitempty"`
 }
 
 // Ctx is what a case gets.
@@ -59,6 +60,16 @@ func (c *Ctx) Stat(name string, n int64) {
 		c.res.Stats = map[string]int64{}
 	}
 	c.res.Stats[name] += n
+}
+
+// Max records the maximum of a named measurement (reported in evidence).
+func (c *Ctx) Max(name string, v int64) {
+	if c.res.Maxes == nil {
+		c.res.Maxes = map[string]int64{}
+	}
+	if old, ok := c.res.Maxes[name]; !ok || v > old {
+		c.res.Maxes[name] = v
+	}
 }
 
 // Seen records a distinct thing observed (counted across the run).
@@ -175,6 +186,9 @@ func (c *Check) RunCase(tier string, seed int64, idx int) (res Result) {
 		}
 	}
 	out.Sigs = append(out.Sigs, res.Sigs...)
+	if out.Maxes == nil {
+		out.Maxes = res.Maxes
+	}
 	if out.Verdict == "" {
 		out.Verdict = Held
 	}
@@ -339,6 +353,7 @@ func coordinate(c *Check, tier string) int {
 	go func() { wg.Wait(); close(results) }()
 
 	agg := map[string]int64{}
+	maxes := map[string]int64{}
 	sigs := map[string]bool{}
 	seen := map[string]bool{}
 	var samples []any
@@ -354,6 +369,11 @@ func coordinate(c *Check, tier string) int {
 		}
 		for _, s := range r.Sigs {
 			seen[s] = true
+		}
+		for k, v := range r.Maxes {
+			if old, ok := maxes[k]; !ok || v > old {
+				maxes[k] = v
+			}
 		}
 		switch r.Verdict {
 		case Violated:
@@ -434,6 +454,7 @@ func coordinate(c *Check, tier string) int {
 		"rule":                c.Rule,
 		"samples":             samples,
 		"counters":            agg,
+		"maxima":              maxes,
 		"distinct_observed":   len(seen),
 		"inconclusive_cases":  len(inconc),
 		"known_finding_hits":  knownHits,
